@@ -307,7 +307,7 @@ def checkpoint_case(ctx, case):
     cwd = os.getcwd()
     try:
         os.chdir(d)
-        trainer = RL4COTrainer(max_epochs=case.get("epochs", 1), accelerator="cpu", devices=1, logger=False, enable_checkpointing=False, enable_progress_bar=False, enable_model_summary=False, precision="32-true", default_root_dir=d)
+        trainer = RL4COTrainer(matmul_precision="highest", max_epochs=case.get("epochs", 1), accelerator="cpu", devices=1, logger=False, enable_checkpointing=False, enable_progress_bar=False, enable_model_summary=False, precision="32-true", default_root_dir=d)
         trainer.fit(model)
         ck = os.path.join(d, "m.ckpt")
         trainer.save_checkpoint(ck)
